@@ -538,6 +538,59 @@ theorem slice_slice_eq {r : RefDS} {s₁ s₂ : List Nat}
       simp [hj']
 
 
+/-! ### the key table of the concatenated parts of `split` -/
+
+theorem range_map_getD_str (ks : List String) :
+    (List.range ks.length).map (fun j => ks[j]?.getD "") = ks := by
+  apply List.ext_getElem
+  · simp
+  · intro t h1 h2
+    simp [h2]
+
+/-- the key table of the concatenated parts of `split(k)`: the key table of the input, unless it has
+    duplicates (then `ConcatenateDataset.keys()` raises its `AssertionError`) -/
+theorem concat_split_keys {r : RefDS} (hi : r.indexable = true) (hl : r.len = .ok r.outs.length)
+    (hk : ∀ ks, r.keys = .ok ks → ks.length = r.outs.length)
+    {k : Int} {parts : List RefDS} (h : Ref.mkSplit k r = .ok parts) :
+    (Ref.concat parts).keys =
+      match r.keys with
+      | .error e => .error e
+      | .ok ks => if hasDup ks then .error .assertionError else .ok ks := by
+  obtain ⟨hk1, hkn, rfl⟩ := ref_mkSplit_parts hi hl h
+  have hk' : 1 ≤ k.toNat := by omega
+  have hcat := C15_sections_concat r.outs.length k.toNat hk'
+  simp only [Ref.concat, Ref.concatKeys, List.mapM_map]
+  cases hks : r.keys with
+  | error e =>
+    obtain ⟨m, hm⟩ : ∃ m, k.toNat = m + 1 := ⟨k.toNat - 1, by omega⟩
+    rw [hm, List.range_succ_eq_map, List.mapM_cons]
+    simp only [Function.comp, Ref.slice, Ref.selectKeys, hks]
+    rfl
+  | ok ks =>
+    have hlen := hk ks hks
+    have hm := ShardSort.mapM_ok
+      ((fun x : RefDS => x.keys) ∘ fun i => Ref.slice (sectionIdx r.outs.length k.toNat i) r)
+      (fun i => (sectionIdx r.outs.length k.toNat i).map (fun j => ks[j]?.getD ""))
+      (List.range k.toNat) (by
+        intro i hi'
+        have hi'' : i < k.toNat := List.mem_range.mp hi'
+        simp only [Function.comp, Ref.slice, hks]
+        apply selectKeys_ok_eq
+        intro x hx
+        have h3 := (ShardSort.mem_sectionIdx.mp hx).2
+        have h4 := ShardSort.sectionStart_le r.outs.length k.toNat (i + 1) hk' hi''
+        omega)
+    rw [hm]
+    have hflat : ((List.range k.toNat).map (fun i =>
+        (sectionIdx r.outs.length k.toNat i).map (fun j => ks[j]?.getD ""))).flatten = ks := by
+      have : (List.range k.toNat).map (fun i =>
+          (sectionIdx r.outs.length k.toNat i).map (fun j => ks[j]?.getD ""))
+          = ((List.range k.toNat).map (sectionIdx r.outs.length k.toNat)).map
+              (List.map (fun j => ks[j]?.getD "")) := by
+        rw [List.map_map]; rfl
+      rw [this, ← List.map_flatten, hcat, ← hlen, range_map_getD_str]
+    simp only [bind, Except.bind, hflat]
+
 theorem mkSlice_ok_inv {spec : SliceSpec} {r r' : RefDS} (h : Ref.mkSlice spec r = .ok r') :
     r.indexable = true ∧ ∃ n sel, r.len = .ok n ∧ resolveSlice n r.keys spec = .ok sel ∧
       r' = Ref.slice sel r := by
